@@ -391,7 +391,29 @@ func genNum(c *Ctx, collide bool) NumDesc {
 		f := math.Ldexp(float64(mant|1<<52), c.G(121)-60-52)
 		d.Text = strconv.FormatFloat(f, 'g', -1, 64)
 	}
+	huge := false
+	if c.G(24) == 0 {
+		// far beyond what float64 holds: a power of two (one significant bit, so every precision holds it exactly)
+		// or its neighbour at 53 bits, thousands of binary digits away from one
+		k := []int{1100, 4097, 5000, -1100, -4200}[c.G(5)]
+		f := new(big.Float).SetMantExp(big.NewFloat(1), k)
+		if c.G(3) == 0 {
+			f.SetPrec(53).Add(f, new(big.Float).SetMantExp(big.NewFloat(1), k-52))
+		}
+		if c.G(2) == 0 {
+			f.Neg(f)
+		}
+		d.Text = f.Text('g', -1)
+		if f.IsInt() {
+			bi, _ := f.Int(nil)
+			d.Text = bi.String()
+		}
+		huge = true
+	}
 	m := c.G(12)
+	if huge && (m == 6 || m == 7 || m == 8) {
+		m = 9 // (float64 and int64 cannot hold it)
+	}
 	switch {
 	case m <= 5:
 		d.Mode = NumParse
